@@ -112,10 +112,16 @@ def run_history(cfg, hist, init):
     info = {'steps': [], 'viol': []}
     a, c, s = cfg['a'], cfg['c'], cfg['s']
     with Sim() as sim:
-        if cfg['kind'] == 'Input':
-            blk = edzed.Input('inp', initdef=init[0], **vkw(cfg))
-        else:
-            blk = edzed.InputExp('inp', duration=10, expired=init[0], initdef=init[0], **vkw(cfg))
+        try:
+            if cfg['kind'] == 'Input':
+                blk = edzed.Input('inp', initdef=init[0], **vkw(cfg))
+            else:
+                blk = edzed.InputExp('inp', duration=10, expired=init[0], initdef=init[0], **vkw(cfg))
+        except Exception as err:    # pylint: disable=broad-except
+            info['viol'].append(('ctor-refused-valid-initdef',
+                                 f"initdef {init[0]!r} is acceptable for [{a},{c},{s}] but the "
+                                 f"constructor raised {err!r}"))
+            return None, info
 
         async def driver():
             task = asyncio.create_task(sim.circuit.run_forever())
@@ -232,7 +238,13 @@ def run_config(cfg):
                 kw = vkw(cfg)
                 if good is not None:
                     kw['initdef'] = good[0]
-                blk = edzed.Input('inp', persistent=True, **kw)
+                try:
+                    blk = edzed.Input('inp', persistent=True, **kw)
+                except Exception as err:    # pylint: disable=broad-except
+                    acc.violation('C17:ctor-refused-valid-initdef:Input',
+                                  f"initdef {kw.get('initdef')!r} is acceptable for [{a},{c},{s}] but "
+                                  f"the constructor raised {err!r}", cfg=cfg)
+                    break
                 sim.circuit.set_persistent_data({blk.key: copy.copy(v), 'edzed-stop-time': 0.0})
                 res = {}
 
